@@ -55,7 +55,8 @@ func newFileKey(cipher Cipher) (fileKey, error) {
 	}
 
 	// Return the object
-	return importFileKey(rnd[0:32], rnd[32:39], cipher)
+	// (the file key is handed to the caller's WrapKeyFn: cap it, so that an append there cannot reach the nonce prefix)
+	return importFileKey(rnd[0:32:32], rnd[32:39], cipher)
 }
 
 func importFileKey(fileKey, noncePrefix []byte, cipher Cipher) (fk fileKey, err error) {
